@@ -283,6 +283,59 @@ def rule_R5b(ctx):
 SELECTIVE = ("::filter", "::filter_map", "::take", "::skip", "::take_while", "::skip_while", "::step_by", "::nth", "::dedup", "::retain", "::truncate")
 
 
+def rule_R11(ctx):
+    """R11: nothing on the HTTP/1 path validates the whole captured input (head AND body) as UTF-8: strict `str::from_utf8` is only
+    applied to the head cut off by head_of; detection helpers that look at the start of the data use the lossy conversion"""
+    P = ctx.program
+    n = 0
+    bad = []
+    for b in P.bodies.values():
+        if b.crate != "huginn_net_http" or not any(m in b.path for m in ("::http1_parser::", "::http1_process::", "::http_process::")):
+            continue
+        S = None
+        for blk, t in b.calls():
+            nm = callee_of(t)
+            if not (nm.endswith("str::from_utf8") or nm.endswith("converts::from_utf8") or nm.endswith("String::from_utf8")):
+                continue
+            S = S or T.Slicer(b, P)
+            a = Q.call_args(b, S, blk, t)
+            n += 1
+            arg = T.strip(a[0])
+            while arg[0] in ("ref", "deref"):
+                arg = T.strip(arg[2] if arg[0] == "ref" else arg[1])
+            whole = arg[0] == "param" or (arg[0] == "call" and arg[1].endswith(("::to_vec", "::to_owned", "::clone")) and T.strip(arg[2][0])[0] in ("param", "ref", "deref") and not T.calls_in(arg[2][0]))
+            if whole:
+                bad.append((b, blk))
+    ctx.check(not bad, "R11", "http1:no-strict-utf8-on-whole-input", "%d strict UTF-8 validations, none of them over the whole input" % n,
+              "%s validates the whole captured buffer (head and body) with a strict UTF-8 conversion: a well-formed head followed by a binary body is no longer recognised"
+              % (T.short(bad[0][0].path) if bad else ""), ctx.loc(bad[0][0], bad[0][1]) if bad else None)
+    ctx.floor("R11", "strict UTF-8 conversions on the HTTP/1 path", n, 2)
+
+
+def rule_R12(ctx):
+    """R12: header names and values are trimmed of optional whitespace with `trim()` (spaces AND tabs, RFC 7230 OWS)"""
+    P = ctx.program
+    b = P.method1("Http1Parser", "parse_headers")
+    S = T.Slicer(b, P)
+    ags = Q.aggregates(b, "HttpHeader")
+    if not ags:
+        ctx.cannot("R12", "parse_headers:trim", "HttpHeader construction not found", ctx.loc(b))
+        return
+    for (i, j, s) in ags[:1]:
+        f = dict(zip(s["r"]["fields"], [S.operand(o, i, j) for o in s["r"]["ops"]]))
+        for fld in ("name", "value"):
+            t = f.get(fld)
+            calls = [x[1] for x in T.calls_in(t)] if t is not None else []
+            for x in (T.walk(t) if t is not None else []):
+                if x[0] == "agg" and x[1] == "closure" and x[2] in P.bodies:
+                    calls += [callee_of(ct) for _, ct in P.bodies[x[2]].calls()]
+            full = any(c.endswith("str>::trim") or c.endswith("<impl str>::trim") or c.endswith("str::trim") for c in calls)
+            partial = sorted({T.short(c) for c in calls if c.endswith(("::trim_matches", "::trim_start_matches", "::trim_end_matches", "::trim_start", "::trim_end", "::strip_prefix", "::strip_suffix", "::trim_ascii_start"))})
+            ctx.check(full and not partial, "R12", "parse_headers:%s:trimmed" % fld, "header %s = trim() of its part of the line" % fld,
+                      "the header %s is trimmed with %s instead of trim(): a tab (the other half of optional whitespace) stays in the reported %s, user agent, software string and "
+                      "signature values" % (fld, ",".join(partial) or "nothing", fld), ctx.loc(b, i))
+
+
 def rule_R10(ctx):
     """R10: the header-count cap admits a head with exactly max_headers headers (the documented limit is inclusive)"""
     P = ctx.program
@@ -463,5 +516,7 @@ def run(ctx):
     rule_R8(ctx)
     rule_R9(ctx)
     rule_R10(ctx)
+    rule_R11(ctx)
+    rule_R12(ctx)
     from . import _http_lists as HL
     HL.direction_flags(ctx, ctx.program, "R4", "http1_process")
